@@ -1,5 +1,152 @@
-import Dagrt.Model.Passes
+import Dagrt.Proofs.PassesProofs
+import Dagrt.Proofs.FuseProofs
+/-!
+# C07 — statement-rewriting passes preserve meaning and never capture names
+
+Model: `Dagrt.Passes` (`Model/Passes.lean`) = the four passes of `dagrt/codegen/transform.py` with
+the two `UniqueNameGenerator`s (C13 model) threaded in the order the Python code calls them and
+`pymbolic.flatten` applied where the `Assign` constructor applies it.  Compared with the real
+passes on every run (every statement each leaf is replaced by).
+
+Proved here, for EVERY statement, expression (nested calls, nested conditional expressions, any
+depth), guard, set of existing names — including names that look generated — and for the three
+expression-driven passes (argument isolation, call isolation, conditional-expression expansion):
+* the pass state changes only by asking one of the two generators for a name and by emitting a
+  statement whose guard is the guard of the statement being rewritten, extended by flag literals of
+  the expander (`mapE_trace`, mutual structural induction over the expression type);
+* hence **guards are carried** (`guards_carried`), and
+* **every name and every statement id a generator hands out during a pass is new** — not among the
+  names / ids of the phase, not handed out before (`names_new`, `ids_new`; from C13's generator
+  theorems), for any input names.
+The semantic clauses (same values of the original variables, same external calls, no introduced
+variable read before it is set) and "an emitted statement uses exactly the names handed out for it"
+are NOT theorems here: they are decided on every run by the independent executor on the real output
+and by the exact correspondence of the model with the real passes.
+-/
 namespace Dagrt.C07
-open Dagrt Dagrt.Passes
-theorem placeholder : flatAndParts (.land []) = [] := rfl
+open Dagrt Dagrt.Sem Dagrt.Names Dagrt.Fuse Dagrt.Passes
+
+/-- every statement emitted along a trace carries the guard -/
+theorem trace_guards {base : Expr} {p q : PS} (h : Trace base p q) :
+    ∀ st ∈ q.out, st ∈ p.out ∨ Carries base st.stmt.cond := by
+  induction h with
+  | refl => intro st hst; exact Or.inl hst
+  | fv b _ ih => intro st hst; exact ih st (by simpa [PS.freshVar] using hst)
+  | fi b _ ih => intro st hst; exact ih st (by simpa [PS.freshId] using hst)
+  | emit st' _ hc ih =>
+    intro st hst
+    simp only [PS.emit, List.mem_append, List.mem_singleton] at hst
+    rcases hst with h | h
+    · exact ih st h
+    · right; subst h; simpa [normStmt_cond] using hc
+
+/-- **Guards are carried.**  Every statement an expression mapper emits while rewriting a statement
+    with guard `cond` has guard `cond`, possibly extended by (possibly negated) flags introduced by
+    the conditional-expression expander. -/
+theorem guards_carried (m : Mode) (cond : Expr) (deps : List (List Char)) (e : Expr) (s : MS) :
+    ∀ st ∈ (mapE m cond deps e s).2.ps.out, st ∈ s.ps.out ∨ Carries cond st.stmt.cond :=
+  trace_guards (mapE_trace m cond deps e s)
+
+/-- what is known about a generator: the names of the phase and everything handed out so far are
+    taken, what was handed out is pairwise different and not a name of the phase -/
+structure GenOK (names0 : List (List Char)) (g : Gen) (handed : List (List Char)) : Prop where
+  plain : g.caseless = false
+  orig : ∀ n ∈ names0, g.conflicting n = true
+  taken : ∀ n ∈ handed, g.conflicting n = true
+  nodup : handed.Nodup
+  new : ∀ n ∈ handed, n ∉ names0
+
+theorem genCall_ok {names0 handed : List (List Char)} {g : Gen} (h : GenOK names0 g handed) (b : List Char) :
+    GenOK names0 (genCall g b).1 (handed ++ [(genCall g b).2]) := by
+  obtain ⟨r, hr⟩ := C13.generator_total g b
+  obtain ⟨g', n⟩ := r
+  have hg : genCall g b = (g', n) := by simp [genCall, hr]
+  obtain ⟨hfree, htaken, hmono⟩ := C13.generator_fresh g g' b n hr
+  rw [hg]
+  refine ⟨?_, ?_, ?_, ?_, ?_⟩
+  · rw [gen_call_caseless g g' b n hr]; exact h.plain
+  · intro m hm; exact hmono m (h.orig m hm)
+  · intro m hm
+    simp only [List.mem_append, List.mem_singleton] at hm
+    rcases hm with hm | hm
+    · exact hmono m (h.taken m hm)
+    · subst hm; exact htaken
+  · rw [List.nodup_append]
+    refine ⟨h.nodup, by simp, ?_⟩
+    intro a ha b' hb' e
+    simp at hb'; subst hb'; subst e
+    have := h.taken a ha
+    rw [hfree] at this; cases this
+  · intro m hm
+    simp only [List.mem_append, List.mem_singleton] at hm
+    rcases hm with hm | hm
+    · exact h.new m hm
+    · subst hm
+      intro hin
+      have := h.orig m hin
+      rw [hfree] at this; cases this
+
+/-- **Names are new**: along any trace of a pass, whatever the variable-name generator has handed
+    out is pairwise different and not a name of the phase -/
+theorem names_new {base : Expr} {p q : PS} (h : Trace base p q) (names0 : List (List Char))
+    (hp : GenOK names0 p.vars p.newVars) : GenOK names0 q.vars q.newVars := by
+  induction h with
+  | refl => exact hp
+  | fv b _ ih => simpa [PS.freshVar] using genCall_ok ih b.toList
+  | fi b _ ih => simpa [PS.freshId] using ih
+  | emit st _ _ ih => simpa [PS.emit] using ih
+
+/-- **Statement ids are new**, likewise -/
+theorem ids_new {base : Expr} {p q : PS} (h : Trace base p q) (ids0 : List (List Char))
+    (hp : GenOK ids0 p.ids p.newIds) : GenOK ids0 q.ids q.newIds := by
+  induction h with
+  | refl => exact hp
+  | fv b _ ih => simpa [PS.freshVar] using ih
+  | fi b _ ih => simpa [PS.freshId] using genCall_ok ih b.toList
+  | emit st _ _ ih => simpa [PS.emit] using ih
+
+/-- the generators `apply_statement_rewriter` seeds from the phase know every name and id of it -/
+theorem initPS_ok (stmts : List FStmt) :
+    GenOK ((usedIdents stmts).map String.toList) (initPS stmts).vars (initPS stmts).newVars ∧
+    GenOK (stmts.map (·.id)) (initPS stmts).ids (initPS stmts).newIds := by
+  constructor
+  · refine ⟨rfl, ?_, by simp [initPS], by simp [initPS], by simp [initPS]⟩
+    intro n hn
+    simpa [initPS, Gen.conflicting, Gen.norm] using hn
+  · refine ⟨rfl, ?_, by simp [initPS], by simp [initPS], by simp [initPS]⟩
+    intro n hn
+    simpa [initPS, Gen.conflicting, Gen.norm] using hn
+
+/-- in particular for one expression of one statement, whatever the names of the phase look like
+    (`tmp`, `tmp_0`, `ifthenelse_result`, … included) -/
+theorem mapper_names_and_ids_new (m : Mode) (cond : Expr) (deps : List (List Char)) (e : Expr) (s : MS)
+    (names0 ids0 : List (List Char))
+    (hv : GenOK names0 s.ps.vars s.ps.newVars) (hi : GenOK ids0 s.ps.ids s.ps.newIds) :
+    GenOK names0 (mapE m cond deps e s).2.ps.vars (mapE m cond deps e s).2.ps.newVars ∧
+    GenOK ids0 (mapE m cond deps e s).2.ps.ids (mapE m cond deps e s).2.ps.newIds :=
+  ⟨names_new (mapE_trace m cond deps e s) names0 hv, ids_new (mapE_trace m cond deps e s) ids0 hi⟩
+
+/-- the copy-in statements of self-dependency elimination carry the guard and depend on what the
+    statement depends on -/
+theorem copyIns_guard (st : FStmt) : ∀ (vs : List Name) (p : PS) (sub : List (Name × Name)) (tids : List (List Char)),
+    ∀ c ∈ (copyIns st vs p sub tids).1.out, c ∈ p.out ∨ (c.stmt.cond = st.stmt.cond ∧ c.deps = st.deps)
+  | [], p, sub, tids => by intro c hc; exact Or.inl hc
+  | v :: vs, p, sub, tids => by
+    intro c hc
+    rw [copyIns] at hc
+    rcases copyIns_guard st vs _ _ _ c hc with h | h
+    · simp only [PS.emit, List.mem_append, List.mem_singleton] at h
+      rcases h with h | h
+      · left; simpa [PS.freshVar, PS.freshId] using h
+      · right; subst h; simp [normStmt]
+    · exact Or.inr h
+
+/-! non-vacuity: `w <- 1 + f(g(x))` through call isolation: two call statements, the inner one first,
+    named `tmp_0` / `tmp`, both with the guard `fl` of the statement -/
+example :
+    ((applyPass .callIso [{ id := "s0".toList, deps := [], stmt := ⟨.var "fl",
+        .assign "w" none (.sum [.const (.int 1), .call "f" [.call "g" [.var "x"] []] []]) []⟩ }] []).flatten.map
+      fun s => (String.ofList s.id, s.stmt.cond.beq (.var "fl"))) = [("tmp_0", true), ("tmp", true), ("s0", true)] := by
+  decide +kernel
+
 end Dagrt.C07
